@@ -398,9 +398,38 @@ theorem applyFailed_good {s : MState} (h : Good s) (n : Nat) : Good (applyFailed
   · exact good_of_same (dropCands_good h) rfl rfl rfl rfl
   · exact h
 
+theorem acceptGather_good {s : MState} (h : Good s) : Good (acceptGather s).1 := by
+  simp only [acceptGather]
+  split
+  · exact good_of_same h rfl rfl rfl rfl
+  · exact h
+  · exact h
+
+theorem startCycle_good {s : MState} (h : Good s) (cg : Option (Nat × Nat)) : Good (startCycle s cg) := by
+  simp only [startCycle]
+  split
+  · exact h
+  · split
+    · exact good_of_same h rfl rfl rfl rfl
+    · refine finishCycle_good (runCycleUnits_good ?_ _ _)
+      exact good_of_same h rfl rfl rfl rfl
+
+theorem restartOp_good {s : MState} (h : Good s) : Good (restartOp s).1 := by
+  simp only [restartOp]
+  split
+  · refine resume_good (dropCands_good ?_) _
+    exact good_of_same h rfl rfl rfl rfl
+  · exact h
+
 /-- every operation keeps conservation and the `ok` invariant of the parked units -/
 theorem step_good {s : MState} (h : Good s) (op : Op) : Good (step s op).1 := by
   cases op with
+  | gather2 =>
+    simp only [step]
+    exact startCycle_good (startCycle_good (acceptGather_good (acceptGather_good h)) _) _
+  | grg =>
+    simp only [step]
+    exact startCycle_good (startCycle_good (acceptGather_good (restartOp_good (acceptGather_good h))) _) _
   | gather =>
     simp only [step]
     split
